@@ -5,15 +5,18 @@ from . import common
 from . import stft_common as sc
 
 PROP = "C14"
-MODULES = ["PdsVerif.Props.StftTie", "PdsVerif.Props.C14"]
+MODULES = ["PdsVerif.Props.StftTie", "PdsVerif.Props.FrameCoeffTie", "PdsVerif.Props.C14"]
 MODEL_MODULES = ["PdsVerif.Model.StftDrv"]
-REQUIRED = ["PdsVerif.StftTie." + n for n in ["full_pad_left_eq", "full_short_eq", "full_num_frames_eq", "full_pad_right_eq", "fin_pad_left_eq", "fin_num_frames_eq", "chunk_frame_length_eq", "chunk_num_frames_eq", "chunk_first_pad_eq", "torch_arith_eq_numpy", "torch_no_frame_eq"]] + ["PdsVerif.C14." + n for n in [
+REQUIRED = ["PdsVerif.StftTie." + n for n in ["full_pad_left_eq", "full_short_eq", "full_num_frames_eq", "full_pad_right_eq", "fin_pad_left_eq", "fin_num_frames_eq", "chunk_frame_length_eq", "chunk_num_frames_eq", "chunk_first_pad_eq", "torch_arith_eq_numpy", "torch_no_frame_eq"]] + ["PdsVerif.FrameCoeffTie." + n for n in ["np_nonlin_append", "np_loop_eq", "np_finish_spec", "coeff_eq_spec", "np_energy_spec", "torch_energy_eq_np", "torch_coeff_eq_np"]] + ["PdsVerif.C14." + n for n in [
     "flip_pad_eq_symPad", "torch_frames_eq_numpy", "torch_walk_eq_numpy_walk", "torch_walk_covers", "torch_empty", "doubling_commutes"]]
 
 def translate(repo):
-    """framing arithmetic of compute.py / torch.py -> Generated/StftConsts.lean (theorems: Props/StftTie.lean)"""
-    from .translate import stftconsts
-    return stftconsts.generate(repo)
+    """framing arithmetic of compute.py / torch.py -> Generated/StftConsts.lean (theorems: Props/StftTie.lean);
+    real-valued tail of the coefficient computation -> Generated/FrameCoeff.lean (theorems: Props/FrameCoeffTie.lean)"""
+    from .translate import stftconsts, framecoeff
+    files = dict(stftconsts.generate(repo))
+    files.update(framecoeff.generate(repo))
+    return files
 
 
 RULE = (
@@ -159,6 +162,28 @@ def run(ctx, driver):
     library(ctx)
 
 
+def lib_computer(spec):
+    """the STFT computer a library case names (also used by --replay)"""
+    from pydrobert.speech import compute, filters
+    kind, scale, rate = spec["bank"], spec["scale"], spec["rate"]
+    if kind == "gabor":
+        bank = filters.GaborFilterBank(scale, num_filts=5, sampling_rate=rate)
+    elif kind == "gammatone":
+        bank = filters.ComplexGammatoneFilterBank(scale, num_filts=5, sampling_rate=rate)
+    elif kind == "fbank":
+        bank = filters.Fbank(num_filts=5, sampling_rate=rate)
+    else:
+        bank = filters.TriangularOverlappingFilterBank(scale, num_filts=5, sampling_rate=rate, analytic=spec["analytic"])
+    return compute.STFTFrameComputer(
+        bank, frame_length_ms=spec["frame_length_ms"], frame_shift_ms=spec["frame_shift_ms"], frame_style=spec["style"],
+        kaldi_shift=spec["kaldi"], use_log=spec["use_log"], use_power=spec["use_power"], include_energy=spec["include_energy"],
+        pad_to_nearest_power_of_two=spec["pad_to_nearest_power_of_two"])
+
+
+def lib_signal(N, amp, xseed):
+    return amp * np.random.RandomState(xseed).randn(N)
+
+
 def library(ctx):
     import torch
     from pydrobert.speech import compute, filters, pre, post
@@ -166,37 +191,49 @@ def library(ctx):
 
     r = ctx.rng
     n = ctx.scale(30, 400)
-    for _ in range(n):
+    # deterministic corner corpus first (never left to the RNG): real and complex banks x log x power x energy on
+    # digital silence and on a signal whose filter sums fall below LOG_FLOOR_VALUE (where the order of doubling,
+    # flooring and taking the log is observable), and on an ordinary signal
+    corners = []
+    for ckind in ("fbank", "tri", "gabor", "gammatone"):
+        for cpow in (True, False):
+            for cen in (False, True):
+                for camp in (0.0, 1e-6, 1.0):
+                    corners.append((ckind, cpow, cen, camp))
+    for it in range(len(corners) + n):
         if ctx.out_of_time():
             break
+        corner = corners[it] if it < len(corners) else None
         rate = r.choice([4000, 8000])
-        kind = r.choice(["gabor", "tri", "fbank", "gammatone"])
+        kind = corner[0] if corner else r.choice(["gabor", "tri", "fbank", "gammatone"])
         scale = r.choice(["mel", "bark"])
-        try:
-            if kind == "gabor":
-                bank = filters.GaborFilterBank(scale, num_filts=5, sampling_rate=rate)
-            elif kind == "gammatone":
-                bank = filters.ComplexGammatoneFilterBank(scale, num_filts=5, sampling_rate=rate)
-            elif kind == "fbank":
-                bank = filters.Fbank(num_filts=5, sampling_rate=rate)
-            else:
-                bank = filters.TriangularOverlappingFilterBank(scale, num_filts=5, sampling_rate=rate, analytic=r.random() < 0.4)
-        except Exception as e:
-            ctx.count("bank_ctor_error:" + type(e).__name__)
-            continue
+        analytic = False if corner else r.random() < 0.4
         flags = dict(use_log=r.random() < 0.5, use_power=r.random() < 0.5, include_energy=r.random() < 0.5,
                      pad_to_nearest_power_of_two=r.random() < 0.5)
+        if corner:
+            flags.update(use_log=True, use_power=corner[1], include_energy=corner[2])
         style = r.choice(["causal", "centered"])
         kaldi = r.random() < 0.3
-        comp = compute.STFTFrameComputer(bank, frame_length_ms=r.choice([None, 10.0, 25.0, 12.3]),
-                                         frame_shift_ms=r.choice([2.0, 5.0, 10.0]), frame_style=style, kaldi_shift=kaldi, **flags)
+        flen, fshift = r.choice([None, 10.0, 25.0, 12.3]), r.choice([2.0, 5.0, 10.0])
+        spec = dict(bank=kind, scale=scale, rate=rate, analytic=analytic, frame_length_ms=flen, frame_shift_ms=fshift,
+                    style=style, kaldi=kaldi, **flags)
+        try:
+            comp = lib_computer(spec)
+        except Exception as e:
+            ctx.count("ctor_error:" + type(e).__name__)
+            continue
         L, S = comp.frame_length, comp.frame_shift
         if S < 1 or S > L:
             ctx.count("out_of_scope")
             continue
-        N = r.choice([0, L // 2, L, L + 1, 3 * L + 7])
-        x = np.random.RandomState(r.randrange(1 << 30)).randn(N)
-        case = dict(kind="library", bank=kind, scale=scale, L=L, S=S, style=style, kaldi=kaldi, N=N, **flags)
+        nsel = r.choice([0, 1, 2, 3, 4])
+        amp = r.choice([1.0, 1.0, 1.0, 0.0, 1e-6, 1e-3])
+        if corner:
+            nsel, amp = 4, corner[3]
+        N = [0, L // 2, L, L + 1, 3 * L + 7][nsel]
+        xseed = r.randrange(1 << 30)
+        x = lib_signal(N, amp, xseed)
+        case = dict(kind="library", L=L, S=S, N=N, amp=amp, xseed=xseed, **spec)
         ctx.case(case, kind="library:" + kind)
         want = comp.compute_full(x)
         mod = pt.PyTorchSTFTFrameComputer.from_stft_frame_computer(comp, torch.cdouble, torch.double)
@@ -277,6 +314,23 @@ def library(ctx):
 
 
 def replay(rp):
-    print(common.canon(rp.get("case")))
+    case = rp.get("case") or {}
+    print(common.canon(case))
     print("oracle:", rp.get("oracle"), "expected", rp.get("expected"), "got", rp.get("got"))
+    if case.get("kind") == "library" and "xseed" in case:
+        # re-run the recorded input on the implementation
+        import torch
+        common.ensure_repo_on_path()
+        from pydrobert.speech import torch as pt
+        comp = lib_computer(case)
+        x = lib_signal(case["N"], case["amp"], case["xseed"])
+        want = comp.compute_full(x)
+        mod = pt.PyTorchSTFTFrameComputer.from_stft_frame_computer(comp, torch.cdouble, torch.double)
+        with torch.no_grad():
+            got = mod(torch.from_numpy(x)).numpy()
+        ok = got.shape == want.shape and np.allclose(got, want, rtol=1e-7, atol=1e-9)
+        print("replayed on the implementation: compute_full shape", want.shape, "torch shape", got.shape,
+              "max |diff|", float(np.abs(got - want).max()) if got.shape == want.shape and got.size else None)
+        print("REPRODUCED" if not ok else "not reproduced (the property holds on this input now)")
+        return 1 if not ok else 0
     return 0
